@@ -42,6 +42,8 @@ def check_history(sc, r):
     n_set = 0
     refused_values = set()
     all_values = {}
+    plant_next = {}    # plant -> time of its next (self-scheduled) step, None if unknown
+    plant_open = {}
     for q, h in enumerate(hist):
         k = h[0]
         if k == "begin" and h[1] == "step":
@@ -49,6 +51,8 @@ def check_history(sc, r):
             cur_time[sid] = t
             if sid in agents:
                 open_agent[sid] = t
+            else:
+                plant_open[sid] = t
             # (b) A does not begin a step later than t before B's step at t has finished
             for (plant, agent) in legal_async:
                 if plant != sid:
@@ -82,6 +86,9 @@ def check_history(sc, r):
                 open_agent.pop(sid, None)
                 ret = h[3]
                 next_due[sid] = ret if isinstance(ret, int) else None
+            else:
+                plant_open.pop(sid, None)
+                plant_next[sid] = h[3] if isinstance(h[3], int) else None
         elif k == "async_call" and h[2] == "set_data":
             n_set += 1
         elif k == "async_done" and h[2] == "set_data":
@@ -90,7 +97,19 @@ def check_history(sc, r):
                 for dst_full, attrs in dests.items():
                     dsid, deid = dst_full.split(".", 1)
                     for a, val in attrs.items():
-                        pending.setdefault(dsid, {})[(deid, a, src_full)] = (val, h[3])
+                        key = (deid, a, src_full)
+                        old = pending.get(dsid, {}).get(key)
+                        t2 = cur_time.get(h[1])
+                        if old is not None and (dsid, h[1]) in legal_async and t2 is not None:
+                            # a value may only be superseded if the plant had no step due in between:
+                            # the agent's step at t2 comes after every step of the plant up to t2
+                            pn = plant_next.get(dsid)
+                            if pn is not None and pn <= t2 and pn < until and dsid not in plant_open:
+                                viols.append({"kind": "set_data_superseded_before_delivery", "features": {},
+                                              "detail": {"target": dsid, "key": list(key), "lost": old[0],
+                                                         "superseded_by": val, "agent": h[1], "agent_time": t2,
+                                                         "plant_step_due": pn, "q": q}})
+                        pending.setdefault(dsid, {})[key] = (val, h[3])
                         all_values[val] = (h[1], dsid)
         elif k == "async_err":
             if h[2] == "set_data":
